@@ -96,6 +96,8 @@ package bcl
 //@   assert [C13,C09] loads_the_given_stream_once: at Load#1: true
 //
 //@ func Interpret
+//@   assert [C19] parses_with_the_options_given: at Parse#1: len($opts) == len(opts) && (forall i int :: 0 <= i && i < len(opts) ==> $opts[i] == opts[i])
+//@   assert [C19] executes_with_the_options_given: at Execute#1: len($opts) == len(opts) && (forall i int :: 0 <= i && i < len(opts) ==> $opts[i] == opts[i])
 //@   requires no_nil_option: forall i int :: 0 <= i && i < len(opts) ==> opts[i] != nil
 //@   ensures [C17] no_results_on_parse_error: g.diags > 0 ==> (len(result0) == 0 && result1 == nil && result2 != nil && g.execs == old(g.execs))
 //@   assert [C17] executed_only_after_successful_parse: at Execute#1: g.diags == 0
